@@ -4,6 +4,7 @@ package c16
 
 import (
 	"context"
+	"reflect"
 	"errors"
 	"fmt"
 	"sort"
@@ -46,8 +47,79 @@ type SRec struct {
 	DeletedAt gorm.DeletedAt
 }
 
+// KRec: the key is assigned by the application (no database default for it).
+type KRec struct {
+	ID        uint   `gorm:"primaryKey;autoIncrement:false"`
+	Code      string `gorm:"uniqueIndex"`
+	Name      string
+	Age       int `gorm:"index"`
+	Note      string
+	CreatedAt time.Time
+	UpdatedAt time.Time
+}
+
 func (Rec) TableName() string  { return "recs" }
 func (SRec) TableName() string { return "recs" }
+func (KRec) TableName() string { return "recs" }
+
+// model kinds
+const (
+	kPlain = iota
+	kSoft
+	kAppKey
+)
+
+var kindNames = []string{"plain", "soft", "appkey"}
+
+// newRec returns a pointer to a zero record of the kind's model type.
+func newRec(kind int) reflect.Value {
+	switch kind {
+	case kSoft:
+		return reflect.ValueOf(&SRec{})
+	case kAppKey:
+		return reflect.ValueOf(&KRec{})
+	}
+	return reflect.ValueOf(&Rec{})
+}
+
+func recOf(kind int, v Val) reflect.Value {
+	p := newRec(kind)
+	e := p.Elem()
+	e.FieldByName("ID").SetUint(uint64(v.ID))
+	e.FieldByName("Code").SetString(v.Code)
+	e.FieldByName("Name").SetString(v.Name)
+	e.FieldByName("Age").SetInt(int64(v.Age))
+	e.FieldByName("Note").SetString(v.Note)
+	return p
+}
+
+func recAttr(kind int, attrs ...Attr) reflect.Value {
+	p := newRec(kind)
+	e := p.Elem()
+	for _, a := range attrs {
+		switch a.Col {
+		case "name":
+			e.FieldByName("Name").SetString(a.S)
+		case "note":
+			e.FieldByName("Note").SetString(a.S)
+		case "code":
+			e.FieldByName("Code").SetString(a.S)
+		case "age":
+			e.FieldByName("Age").SetInt(int64(a.I))
+		}
+	}
+	return p
+}
+
+func rowOf(p reflect.Value) Row {
+	e := p.Elem()
+	r := Row{ID: uint(e.FieldByName("ID").Uint()), Code: e.FieldByName("Code").String(), Name: e.FieldByName("Name").String(),
+		Age: int(e.FieldByName("Age").Int()), Note: e.FieldByName("Note").String()}
+	if f := e.FieldByName("DeletedAt"); f.IsValid() {
+		r.Deleted = f.Interface().(gorm.DeletedAt).Valid
+	}
+	return r
+}
 
 // Row is the model's view of one table row (tracked timestamps aside).
 type Row struct {
@@ -70,13 +142,14 @@ func (r Row) String() string {
 // ---- reference model ------------------------------------------------------------------------
 
 type Model struct {
+	Kind    int // kPlain | kSoft | kAppKey
 	Soft    bool
 	Rows    map[uint]Row
 	MaxEver uint // highest key ever stored (AUTOINCREMENT never reuses)
 }
 
 func (m *Model) clone() *Model {
-	c := &Model{Soft: m.Soft, Rows: map[uint]Row{}, MaxEver: m.MaxEver}
+	c := &Model{Kind: m.Kind, Soft: m.Soft, Rows: map[uint]Row{}, MaxEver: m.MaxEver}
 	for k, v := range m.Rows {
 		c.Rows[k] = v
 	}
@@ -205,35 +278,10 @@ func (v variant) apply(db *gorm.DB, at int) *gorm.DB {
 
 type ctxKey struct{}
 
-func attrArgs(a Attr, soft bool) []interface{} {
+func attrArgs(a Attr, kind int) []interface{} {
 	switch a.Form {
 	case "struct":
-		if soft {
-			r := SRec{}
-			switch a.Col {
-			case "name":
-				r.Name = a.S
-			case "note":
-				r.Note = a.S
-			case "code":
-				r.Code = a.S
-			case "age":
-				r.Age = a.I
-			}
-			return []interface{}{r}
-		}
-		r := Rec{}
-		switch a.Col {
-		case "name":
-			r.Name = a.S
-		case "note":
-			r.Note = a.S
-		case "code":
-			r.Code = a.S
-		case "age":
-			r.Age = a.I
-		}
-		return []interface{}{r}
+		return []interface{}{recAttr(kind, a).Elem().Interface()}
 	case "map":
 		if a.Col == "age" {
 			return []interface{}{map[string]interface{}{"age": a.I}}
@@ -246,7 +294,7 @@ func attrArgs(a Attr, soft bool) []interface{} {
 	return []interface{}{a.Col, a.S}
 }
 
-func condValue(conds []Attr, form string, soft bool) interface{} {
+func condValue(conds []Attr, form string, kind int) interface{} {
 	if strings.HasSuffix(form, "map") {
 		m := map[string]interface{}{}
 		for _, c := range conds {
@@ -260,32 +308,7 @@ func condValue(conds []Attr, form string, soft bool) interface{} {
 		}
 		return m
 	}
-	if soft {
-		r := SRec{}
-		for _, c := range conds {
-			switch c.Col {
-			case "name":
-				r.Name = c.S
-			case "note":
-				r.Note = c.S
-			case "age":
-				r.Age = c.I
-			}
-		}
-		return r
-	}
-	r := Rec{}
-	for _, c := range conds {
-		switch c.Col {
-		case "name":
-			r.Name = c.S
-		case "note":
-			r.Note = c.S
-		case "age":
-			r.Age = c.I
-		}
-	}
-	return r
+	return recAttr(kind, conds...).Elem().Interface()
 }
 
 // chainLen is the number of chain calls before the finisher (positions 0..chainLen).
@@ -309,26 +332,16 @@ func chainLen(o Op) int {
 	return n
 }
 
-func run(d *testdb.DB, soft bool, o Op, v variant) Outcome {
+func run(d *testdb.DB, kind int, o Op, v variant) Outcome {
 	db := d.DB
 	var res *gorm.DB
 	out := Outcome{}
-	fill := func(id uint, code, name string, age int, note string, del bool) {
-		out.Out = Row{ID: id, Code: code, Name: name, Age: age, Note: note, Deleted: del}
-		out.OutValid = true
-	}
 	switch o.Kind {
 	case "save":
 		tx := v.apply(db, 0)
-		if soft {
-			r := SRec{ID: o.V.ID, Code: o.V.Code, Name: o.V.Name, Age: o.V.Age, Note: o.V.Note}
-			res = tx.Save(&r)
-			fill(r.ID, r.Code, r.Name, r.Age, r.Note, r.DeletedAt.Valid)
-		} else {
-			r := Rec{ID: o.V.ID, Code: o.V.Code, Name: o.V.Name, Age: o.V.Age, Note: o.V.Note}
-			res = tx.Save(&r)
-			fill(r.ID, r.Code, r.Name, r.Age, r.Note, false)
-		}
+		r := recOf(kind, o.V)
+		res = tx.Save(r.Interface())
+		out.Out, out.OutValid = rowOf(r), true
 	case "upsert":
 		var oc clause.OnConflict
 		switch o.Rule {
@@ -342,21 +355,17 @@ func run(d *testdb.DB, soft bool, o Op, v variant) Outcome {
 			oc = clause.OnConflict{Columns: []clause.Column{{Name: "code"}}, DoUpdates: clause.AssignmentColumns(append([]string(nil), o.Subset...))}
 		case "updateall":
 			oc = clause.OnConflict{UpdateAll: true}
+		case "updateall-code":
+			oc = clause.OnConflict{Columns: []clause.Column{{Name: "code"}}, UpdateAll: true}
 		}
 		tx := v.apply(db, 0).Clauses(oc)
 		tx = v.apply(tx, 1)
-		if soft {
-			r := SRec{ID: o.V.ID, Code: o.V.Code, Name: o.V.Name, Age: o.V.Age, Note: o.V.Note}
-			res = tx.Create(&r)
-		} else {
-			r := Rec{ID: o.V.ID, Code: o.V.Code, Name: o.V.Name, Age: o.V.Age, Note: o.V.Note}
-			res = tx.Create(&r)
-		}
+		res = tx.Create(recOf(kind, o.V).Interface())
 	default:
 		tx := db
 		at := 0
 		var inline []interface{}
-		cv := condValue(o.Conds, o.CondForm, soft)
+		cv := condValue(o.Conds, o.CondForm, kind)
 		if strings.HasPrefix(o.CondForm, "inline") {
 			inline = []interface{}{cv}
 		} else {
@@ -364,31 +373,21 @@ func run(d *testdb.DB, soft bool, o Op, v variant) Outcome {
 			at++
 		}
 		if o.Attrs != nil {
-			tx = v.apply(tx, at).Attrs(attrArgs(*o.Attrs, soft)...)
+			tx = v.apply(tx, at).Attrs(attrArgs(*o.Attrs, kind)...)
 			at++
 		}
 		if o.Assign != nil {
-			tx = v.apply(tx, at).Assign(attrArgs(*o.Assign, soft)...)
+			tx = v.apply(tx, at).Assign(attrArgs(*o.Assign, kind)...)
 			at++
 		}
 		tx = v.apply(tx, at)
-		if soft {
-			var r SRec
-			if o.Kind == "firstorinit" {
-				res = tx.FirstOrInit(&r, inline...)
-			} else {
-				res = tx.FirstOrCreate(&r, inline...)
-			}
-			fill(r.ID, r.Code, r.Name, r.Age, r.Note, r.DeletedAt.Valid)
+		r := newRec(kind)
+		if o.Kind == "firstorinit" {
+			res = tx.FirstOrInit(r.Interface(), inline...)
 		} else {
-			var r Rec
-			if o.Kind == "firstorinit" {
-				res = tx.FirstOrInit(&r, inline...)
-			} else {
-				res = tx.FirstOrCreate(&r, inline...)
-			}
-			fill(r.ID, r.Code, r.Name, r.Age, r.Note, false)
+			res = tx.FirstOrCreate(r.Interface(), inline...)
 		}
+		out.Out, out.OutValid = rowOf(r), true
 	}
 	if res.Error != nil {
 		out.Err = true
@@ -436,7 +435,7 @@ func expect(m *Model, o Op) (exp Outcome) {
 			return Outcome{RowsAffected: 0, RAValid: true}
 		}
 		var target *Row
-		if o.Rule == "updates-code" {
+		if o.Rule == "updates-code" || o.Rule == "updateall-code" {
 			if byCode == nil {
 				return Outcome{Err: true} // primary-key conflict is not the upsert target
 			}
@@ -462,9 +461,11 @@ func expect(m *Model, o Op) (exp Outcome) {
 					t.Note = v.Note
 				}
 			}
-		case "updateall":
+		case "updateall", "updateall-code":
+			// every column except the primary key takes the proposed value (deleted_at included);
+			// the row that was hit keeps its key, whatever the conflict target is
 			t.Code, t.Name, t.Age, t.Note = v.Code, v.Name, v.Age, v.Note
-			t.Deleted = false // every column, deleted_at included, takes the proposed value
+			t.Deleted = false
 		}
 		m.put(t)
 		return Outcome{RowsAffected: 1, RAValid: true}
@@ -550,16 +551,24 @@ func expect(m *Model, o Op) (exp Outcome) {
 	if m.byCode(r.Code) != nil {
 		return Outcome{Err: true}
 	}
+	if m.Kind == kAppKey {
+		// no database default for the key: the record is stored under the key it carries (0)
+		if _, taken := m.Rows[0]; taken {
+			return Outcome{Err: true}
+		}
+		m.put(r)
+		return Outcome{Out: r, OutValid: true, RowsAffected: 1, RAValid: true}
+	}
 	return Outcome{AutoID: true, Out: r, OutValid: true, RowsAffected: 1, RAValid: true}
 }
 
 // ---- database plumbing ----------------------------------------------------------------------
 
-var ddlCache [2][]string // CREATE statements of the recs table per model kind, captured once
+var ddlCache [3][]string // CREATE statements of the recs table per model kind, captured once
 
 func nowFunc() time.Time { return testdb.FixedNow }
 
-func openDB(soft bool, m *Model) *testdb.DB {
+func openDB(kind int, m *Model) *testdb.DB {
 	var seed []dbRow
 	for _, r := range m.sorted() {
 		x := dbRow{ID: r.ID, Code: r.Code, Name: r.Name, Age: r.Age, Note: r.Note,
@@ -570,25 +579,19 @@ func openDB(soft bool, m *Model) *testdb.DB {
 		}
 		seed = append(seed, x)
 	}
-	return openSeeded(soft, seed, m.MaxEver)
+	return openSeeded(kind, seed, m.MaxEver)
 }
 
 // openSeeded builds a fresh database holding exactly the given rows (timestamps
 // included) whose AUTOINCREMENT continues after maxEver.
-func openSeeded(soft bool, seed []dbRow, maxEver uint) *testdb.DB {
+func openSeeded(kind int, seed []dbRow, maxEver uint) *testdb.DB {
+	soft := kind == kSoft
 	d := testdb.Open(testdb.Options{Config: gorm.Config{NowFunc: nowFunc}})
-	k := 0
-	if soft {
-		k = 1
-	}
+	k := kind
 	if ddlCache[k] == nil {
 		// the schema comes from AutoMigrate once; later databases replay its DDL (much cheaper)
 		var err error
-		if soft {
-			err = d.AutoMigrate(&SRec{})
-		} else {
-			err = d.AutoMigrate(&Rec{})
-		}
+		err = d.AutoMigrate(newRec(kind).Interface())
 		if err != nil {
 			panic("harness: migrate: " + err.Error())
 		}
@@ -656,12 +659,13 @@ type dbRow struct {
 	DeletedAt *time.Time
 }
 
-func dump(d *testdb.DB, soft bool) ([]Row, string) {
-	rows, full, _ := dumpRaw(d, soft)
+func dump(d *testdb.DB, kind int) ([]Row, string) {
+	rows, full, _ := dumpRaw(d, kind)
 	return rows, full
 }
 
-func dumpRaw(d *testdb.DB, soft bool) ([]Row, string, []dbRow) {
+func dumpRaw(d *testdb.DB, kind int) ([]Row, string, []dbRow) {
+	soft := kind == kSoft
 	var rows []dbRow
 	q := "SELECT id, code, name, age, note, created_at, updated_at FROM recs ORDER BY id"
 	if soft {
@@ -703,9 +707,13 @@ var (
 	genAge  = rapid.IntRange(0, 3)
 )
 
-func genVal(t *rapid.T, label string) Val {
+func genVal(t *rapid.T, label string, kind int) Val {
+	lo := 0
+	if kind == kAppKey {
+		lo = 1 // the application always supplies the key of a record it writes
+	}
 	return Val{
-		ID:   uint(rapid.IntRange(0, 5).Draw(t, label+".id")),
+		ID:   uint(rapid.IntRange(lo, 5).Draw(t, label+".id")),
 		Code: genCode.Draw(t, label+".code"),
 		Name: genName.Draw(t, label+".name"),
 		Age:  genAge.Draw(t, label+".age"),
@@ -735,14 +743,20 @@ func genAttr(t *rapid.T, label string, cols []string, allowZero bool) Attr {
 }
 
 func genOp(t *rapid.T, m *Model) Op {
-	kind := rapid.SampledFrom([]string{"save", "save", "upsert", "upsert", "firstorinit", "firstorcreate", "firstorcreate"}).Draw(t, "kind")
+	kinds := []string{"save", "save", "upsert", "upsert", "firstorinit", "firstorcreate", "firstorcreate"}
+	if m.Kind == kAppKey {
+		// FirstOrCreate would store its new record under key 0, and gorm treats a zero key as "no key"
+		// from then on (documented): records of this model are only written with a key
+		kinds = []string{"save", "save", "upsert", "upsert", "upsert", "firstorinit"}
+	}
+	kind := rapid.SampledFrom(kinds).Draw(t, "kind")
 	o := Op{Kind: kind}
 	switch kind {
 	case "save":
-		o.V = genVal(t, "v")
+		o.V = genVal(t, "v", m.Kind)
 	case "upsert":
-		o.V = genVal(t, "v")
-		o.Rule = rapid.SampledFrom([]string{"nothing", "nothing-id", "updates-id", "updates-code", "updateall"}).Draw(t, "rule")
+		o.V = genVal(t, "v", m.Kind)
+		o.Rule = rapid.SampledFrom([]string{"nothing", "nothing-id", "updates-id", "updates-code", "updateall", "updateall-code"}).Draw(t, "rule")
 		if strings.HasPrefix(o.Rule, "updates") {
 			all := []string{"name", "age", "note"}
 			mask := rapid.IntRange(1, 7).Draw(t, "subset")
@@ -830,8 +844,9 @@ func TestC16(t *testing.T) {
 	evid.Rule("C16: stateful histories (1-8 operations) of Save / Create+OnConflict{DoNothing,DoUpdates(subset),UpdateAll, target id or the unique column} / FirstOrInit / FirstOrCreate (struct, map, inline conditions; Attrs/Assign as struct, map, key-value) over keys 0..5 and four unique codes, plain and soft-delete model, each compared with a reference map and re-run with Session/WithContext at every chain position on identical database copies; non-trivial = a key or unique-column collision happened and a Session/WithContext variant not in last position was compared; distinct = model kind + initial rows + operation list")
 	evid.Assume("SQLite's own resolution of INSERT ... ON CONFLICT is trusted; proposed rows conflicting with two different rows are not generated")
 	rapid.Check(t, func(rt *rapid.T) {
-		soft := rapid.Bool().Draw(rt, "soft")
-		m := &Model{Soft: soft, Rows: map[uint]Row{}}
+		kind := rapid.SampledFrom([]int{kPlain, kPlain, kSoft, kSoft, kAppKey}).Draw(rt, "kind")
+		soft := kind == kSoft
+		m := &Model{Kind: kind, Soft: soft, Rows: map[uint]Row{}}
 		nInit := rapid.IntRange(0, 4).Draw(rt, "ninit")
 		codes := []string{"c1", "c2", "c3", "c4", ""}
 		for i := 0; i < nInit; i++ {
@@ -846,8 +861,8 @@ func TestC16(t *testing.T) {
 			m.put(r)
 		}
 		var desc strings.Builder
-		fmt.Fprintf(&desc, "soft=%v init=%v ops=", soft, m.sorted())
-		d := openDB(soft, m)
+		fmt.Fprintf(&desc, "model=%s init=%v ops=", kindNames[kind], m.sorted())
+		d := openDB(kind, m)
 		defer d.Close()
 
 		nOps := rapid.IntRange(1, 8).Draw(rt, "nops")
@@ -897,12 +912,12 @@ func TestC16(t *testing.T) {
 			}
 
 			// -- baseline on the history's database
-			_, _, preRaw := dumpRaw(d, soft)
+			_, _, preRaw := dumpRaw(d, kind)
 			preSeq := seqOf(d)
 			d.Rec.Reset()
-			got := run(d, soft, o, variant{pos: -1})
+			got := run(d, kind, o, variant{pos: -1})
 			events := d.Rec.Events()
-			rows, full := dump(d, soft)
+			rows, full := dump(d, kind)
 			fail := func(format string, a ...interface{}) {
 				rt.Fatalf("C16 violated: %s\n  operation %d: %s\n  table before: %v\n  table after:  %v\n  expected:     %v\n  history: %s",
 					fmt.Sprintf(format, a...), i+1, o, pre.sorted(), rows, m.sorted(), desc.String())
@@ -955,8 +970,8 @@ func TestC16(t *testing.T) {
 			if o.Kind == "save" && !exp.Err {
 				o2 := o
 				o2.V.ID = exp.Out.ID
-				got2 := run(d, soft, o2, variant{pos: -1})
-				rows2, _ := dump(d, soft)
+				got2 := run(d, kind, o2, variant{pos: -1})
+				rows2, _ := dump(d, kind)
 				if got2.Err {
 					fail("second Save of the same value failed: %s", got2.ErrText)
 				}
@@ -970,10 +985,10 @@ func TestC16(t *testing.T) {
 			// -- metamorphic: Session / WithContext at every chain position
 			n := chainLen(o)
 			for pos := 0; pos <= n; pos++ {
-				for _, kind := range []string{"session", "ctx"} {
-					vd := openSeeded(soft, preRaw, preSeq)
-					vgot := run(vd, soft, o, variant{pos: pos, kind: kind})
-					vrows, vfull := dump(vd, soft)
+				for _, vkind := range []string{"session", "ctx"} {
+					vd := openSeeded(kind, preRaw, preSeq)
+					vgot := run(vd, kind, o, variant{pos: pos, kind: vkind})
+					vrows, vfull := dump(vd, kind)
 					vd.Close()
 					if pos < n {
 						midVariant = true
@@ -985,7 +1000,7 @@ func TestC16(t *testing.T) {
 					if !same {
 						rows = vrows
 						fail("outcome depends on a %s call at chain position %d of %d: without it (err=%v out=%v ra=%d), with it (err=%v %q out=%v ra=%d)",
-							kind, pos, n, got.Err, got.Out, got.RowsAffected, vgot.Err, vgot.ErrText, vgot.Out, vgot.RowsAffected)
+							vkind, pos, n, got.Err, got.Out, got.RowsAffected, vgot.Err, vgot.ErrText, vgot.Out, vgot.RowsAffected)
 					}
 				}
 			}
@@ -995,11 +1010,7 @@ func TestC16(t *testing.T) {
 			cl = append(cl, k)
 		}
 		sort.Strings(cl)
-		if soft {
-			cl = append(cl, "model:soft")
-		} else {
-			cl = append(cl, "model:plain")
-		}
+		cl = append(cl, "model:"+kindNames[kind])
 		evid.Case(desc.String(), collision && midVariant, nil, cl...)
 	})
 }
@@ -1009,16 +1020,16 @@ func TestC16(t *testing.T) {
 // Where(..).Attrs(..).WithContext(ctx).FirstOrInit used to drop the Attrs.
 func TestC16WitnessAttrsAfterSession(t *testing.T) {
 	m := &Model{Rows: map[uint]Row{}}
-	for _, kind := range []string{"session", "ctx"} {
+	for _, vkind := range []string{"session", "ctx"} {
 		for _, k := range []string{"firstorinit", "firstorcreate"} {
-			d := openDB(false, m)
+			d := openDB(kPlain, m)
 			a := Attr{Form: "struct", Col: "note", S: "x"}
 			b := Attr{Form: "map", Col: "age", I: 2}
 			o := Op{Kind: k, CondForm: "struct", Conds: []Attr{{Col: "name", S: "ann"}}, Attrs: &a, Assign: &b}
-			got := run(d, false, o, variant{pos: 3, kind: kind})
+			got := run(d, kPlain, o, variant{pos: 3, kind: vkind})
 			d.Close()
 			if got.Err || got.Out.Note != "x" || got.Out.Age != 2 || got.Out.Name != "ann" {
-				t.Errorf("C16 violated: %s with %s after Attrs/Assign returned %v (err %q), want name=ann note=x age=2", k, kind, got.Out, got.ErrText)
+				t.Errorf("C16 violated: %s with %s after Attrs/Assign returned %v (err %q), want name=ann note=x age=2", k, vkind, got.Out, got.ErrText)
 			}
 		}
 	}
